@@ -200,7 +200,7 @@ def main(tier, seed):
                     rc, out, err = shb([hfile] + (["strict"] if strict else []) + ["read", fin, "write", fout], timeout=60)
                     txt = out.decode("latin-1")
                     sevl = [l for l in txt.split("\n") if l.startswith("SEV read")]
-                    hooks = [l.split() for l in err.decode("latin-1").split("\n") if l.startswith("VERIF-")]
+                    hooks = [l.split() for l in err.decode("latin-1").split("\n") if l.startswith("VERIF-INST ") or l.startswith("VERIF-CINST ")]
                     rc2, out2, err2 = shb([p21read] + (["-s"] if strict else []) + [fin, os.path.join(wdir, "p.out")], timeout=60, cwd=wdir)
                     accepted_doc, sub = documented(strict, optional, kind)
                     file_sev = int(sevl[0].split()[3]) if sevl else None
